@@ -346,6 +346,7 @@ struct EvalState
     unsigned long fireAt = 0;
     std::atomic<long> firstSol{-1}, firstExact{-1};
     std::atomic<long long> firedAtMs{-1};  // steady-clock ms of the first evaluation that returned true
+    std::atomic<long> firedAtEval{-1};     // number of the first evaluation that returned true (or called terminate())
     std::atomic<long long> lastEvalMs{-1};  // steady-clock ms of the latest evaluation
 };
 
@@ -535,6 +536,11 @@ static void doSolve(Session &S, unsigned long k, int kind = 0)
             if (r && *holder)
             {
                 (*holder)->terminate();
+                if (es->firedAtEval.load() < 0)
+                {
+                    long exp = -1;
+                    es->firedAtEval.compare_exchange_strong(exp, (long)n);
+                }
                 if (es->firedAtMs.load() < 0)
                 {
                     long long exp = -1;
@@ -544,6 +550,11 @@ static void doSolve(Session &S, unsigned long k, int kind = 0)
             r = false;  // from now on terminate_ answers; this function is not called again
         }
         es->lastEvalMs.store(nowMs());
+        if (r && es->firedAtEval.load() < 0)
+        {
+            long exp = -1;
+            es->firedAtEval.compare_exchange_strong(exp, (long)n);
+        }
         if (r && es->firedAtMs.load() < 0)
         {
             long long exp = -1;
@@ -620,8 +631,12 @@ static void doSolve(Session &S, unsigned long k, int kind = 0)
     holder->reset();
     std::string ev = S.evs();
     unsigned long evals = es->evals.load();
-    bool fired = evals > k;
-    unsigned long after = fired ? evals - (k + 1) : 0;
+    // "after" = evaluations after the one that FIRST answered true.  For the evaluation counter that one is k + 1; a real
+    // IterationTerminationCondition driven by a multi-threaded planner (CForest, pRRT, ...) increments a plain unsigned int
+    // from several threads and may answer true later than its k+1-th call, so the index is recorded, not assumed.
+    long firedAt = es->firedAtEval.load();
+    bool fired = firedAt >= 0;
+    unsigned long after = fired && evals >= (unsigned long)firedAt ? evals - (unsigned long)firedAt : 0;
     auto sols = S.pdef->getSolutions();
     ob::PlannerSolution newTop(nullptr);
     bool hasTop = S.pdef->getSolution(newTop);
